@@ -17,6 +17,7 @@ func init() {
 	replayers["C07"] = func(c *ctx, a []string) {
 		switch {
 		case c07sidReplay(c, a):
+		case c07filesReplay(c, a):
 		case len(a) == 2 && a[0] == "ids":
 			c07ids(c, strings.Split(a[1], ","))
 		case len(a) >= 2 && a[0] == "hist":
@@ -206,6 +207,8 @@ func runC07(c *ctx) {
 	}
 	// server ids of assign-backend-server-id with constructed hash collisions (c07ids.go)
 	runC07Sid(c)
+	// CA bundles read from files (file://ca[,crl]): the resolution against the model, then end to end (c07files.go)
+	runC07Files(c)
 	// histories with everything that creates references: auth, passthrough, tcp services, missing objects
 	n := 120
 	if c.thorough() {
